@@ -279,6 +279,10 @@ def oracle_surface(ck, rng):
                                    f"({int((m_ != first[(j, ax)]).sum())} bins)", dict(info, axis=ax, call=rnd + 1))
                         else:
                             first[(j, ax)] = m_
+                    from acryo._utils import missing_wedge_mask as umask_
+                    u_ = np.asarray(umask_(r_, tr, shape)) > 0
+                    expect(np.array_equal(u_, first[(j, "y")]), "utils-mask", f"acryo._utils.missing_wedge_mask (call {rnd + 1}) differs from the y-axis tilt model in "
+                           f"{int((u_ != first[(j, 'y')]).sum())} bins", dict(info, call=rnd + 1))
                     b_ = np.asarray(xp.asnumpy(xp.missing_wedge_mask(r_, tr, shape))) > 0
                     expect(np.array_equal(b_, first[(j, "y")]), "backend-mask", f"Backend.missing_wedge_mask (call {rnd + 1}) differs from the y-axis tilt model in "
                            f"{int((b_ != first[(j, 'y')]).sum())} bins", dict(info, call=rnd + 1))
